@@ -6,6 +6,7 @@
 #include <cstdint>
 #include <cstdio>
 #include <cstdlib>
+#include <cstring>
 #include <string>
 
 #ifdef VERIF_VALUE_POINTS
@@ -20,11 +21,24 @@ extern "C" void verif_value_point();
 
 namespace vv
 {
-constexpr int kMaxKeys = 160;
+constexpr int kMaxKeys = 320;
+
+// key mode of the running case: 0 = mixed table, 1 = multiples of 64 (all congruent modulo small powers of two),
+// 2 = keys differing only above bit 32
+inline std::atomic<int>& key_mode()
+{
+    static std::atomic<int> m{0};
+    return m;
+}
 
 // ---- keys -------------------------------------------------------------------------------------
 inline uint64_t u64_key(int i)
 {
+    const int km = key_mode().load(std::memory_order_relaxed);
+    if (km == 1)
+        return static_cast<uint64_t>(i + 1) * 64ull;
+    if (km == 2)
+        return (static_cast<uint64_t>(i + 1) << 32) + 5ull;
     // Mixed bag: small values, values colliding modulo the small primes libstdc++ uses as bucket
     // counts (2,3,5,7,11,13,17,...), and extremes.  All distinct.
     static const uint64_t t[48] = {
@@ -135,6 +149,8 @@ public:
         m_block = nullptr;
         tracked_stats::live().fetch_sub(1, std::memory_order_relaxed);
     }
+    friend bool operator==(const Tracked& a, const Tracked& b) { return a.payload() == b.payload(); }
+    friend bool operator!=(const Tracked& a, const Tracked& b) { return !(a == b); }
     uint64_t payload() const
     {
         checked();
@@ -179,6 +195,19 @@ struct BigTracked
     unsigned char back[168];
     BigTracked() : t() { fill(0); }
     explicit BigTracked(uint64_t p) : t(p) { fill(p); }
+    BigTracked(const BigTracked&) = default;
+    BigTracked(BigTracked&&)      = default;
+    BigTracked& operator=(const BigTracked&) = default;
+    // deliberately NOT noexcept: code that chooses a different path for value types whose move assignment may throw takes it here
+    BigTracked& operator=(BigTracked&& o)
+    {
+        std::memcpy(front, o.front, sizeof front);
+        t = std::move(o.t);
+        std::memcpy(back, o.back, sizeof back);
+        return *this;
+    }
+    friend bool operator==(const BigTracked& a, const BigTracked& b) { return a.payload() == b.payload(); }
+    friend bool operator!=(const BigTracked& a, const BigTracked& b) { return !(a == b); }
     void fill(uint64_t p)
     {
         for (size_t i = 0; i < sizeof front; ++i)
